@@ -1,4 +1,5 @@
 import BufrModel.Bitmap
+import BufrProofs.Expand
 /-
   BufrProofs.Bitmap — the bit-map head in front of `applyTables2node` is inert until a bit-map
   operator (2 36 YYY) or a replicated class 33 element is met: the functions of BufrModel.Bitmap
@@ -7,8 +8,12 @@ import BufrModel.Bitmap
 -/
 namespace Bufr
 
+/-- a descriptor that cannot wake the bit-map head up: not 2 36 YYY, and not a class 33 element
+(replicated alone it would be flagged `FLAG_CLASS33`) -/
+def quietDesc (d : Nat) : Bool := !(Desc.f d = 2 && Desc.x d = 36) && !(Desc.f d = 0 && Desc.x d = 33)
+
 /-- a node the bit-map head ignores while no bit-map is being defined -/
-def quietNode (n : Node) : Bool := !n.flags.class33 && !(Desc.f n.desc = 2 && Desc.x n.desc = 36)
+def quietNode (n : Node) : Bool := !n.flags.class33 && quietDesc n.desc
 
 /-- `DDO_BIT_MAP_FOLLOW` is not set -/
 def quietDDO (ddo : DDO) : Prop := hasFlag ddo.flags DDO_BIT_MAP_FOLLOW = false
@@ -21,7 +26,7 @@ theorem hasFlag_and (a m f : Nat) (h : m &&& f = f) : hasFlag (a &&& m) f = hasF
 
 theorem quietNode_not236 (n : Node) (h : quietNode n = true) : n.desc ≠ 236000 := by
   intro e
-  unfold quietNode at h
+  unfold quietNode quietDesc at h
   rw [e] at h
   simp [Desc.f, Desc.x] at h
 
@@ -142,7 +147,7 @@ theorem applyTables2node_quietDDO (T : Tables) (edition : Nat) (ddo : DDO) (n : 
     rw [applyTail_flags]
     have hx : Desc.x n.desc ≠ 36 := by
       intro hx
-      unfold quietNode at hn
+      unfold quietNode quietDesc at hn
       simp [hop.1, hx] at hn
     rw [resolveTableC_flag ddo _ _ edition hx]
     exact hd
@@ -662,5 +667,263 @@ theorem decodeDataB_quiet_uncompressed (T : Tables) (fuel : Nat) (t : Template) 
         · simp only [Bool.not_false, if_true]
           rw [decodeUncompressedB_quiet T t.edition enforce fuel s4max bsq _ _ _ _ hT e2]
           rfl
+
+/-! ### quiet nodes are closed under expansion when the tables are quiet -/
+
+/-- no Table D sequence holds a 2 36 YYY operator or a class 33 element -/
+def QuietTables (T : Tables) : Prop :=
+  ∀ d e, T.fetchD d = some e → ∀ m ∈ e.members, quietDesc m = true
+
+theorem quietNode_congr (a b : Node) (hd : a.desc = b.desc) (hf : a.flags.class33 = b.flags.class33) :
+    quietNode a = quietNode b := by
+  unfold quietNode; rw [hd, hf]
+
+theorem quietNode_of (a b : Node) (hd : a.desc = b.desc) (hf : a.flags.class33 = b.flags.class33)
+    (hb : quietNode b = true) : quietNode a = true := by
+  rw [quietNode_congr a b hd hf]; exact hb
+
+theorem dropPlaceholder_df (n : Node) : (dropPlaceholder n).desc = n.desc ∧ (dropPlaceholder n).flags = n.flags := by
+  unfold dropPlaceholder; split <;> exact ⟨rfl, rfl⟩
+
+theorem quiet_body_extra (body : List Node) (h : ∀ n ∈ body, quietNode n = true) :
+    (match body with
+      | [b] => decide (Desc.f b.desc = 0 ∧ Desc.x b.desc = 33)
+      | _ => false) = false := by
+  match body, h with
+  | [], _ => rfl
+  | [b], h =>
+    have hb := h b (by simp)
+    unfold quietNode quietDesc at hb
+    simp only [Bool.and_eq_true, Bool.not_eq_true', Bool.and_eq_false_imp, decide_eq_true_eq, decide_eq_false_iff_not] at hb
+    simp only [decide_eq_false_iff_not, not_and]
+    exact hb.2.2
+  | _ :: _ :: _, _ => rfl
+
+theorem replicaOf_quiet (T : Tables) (body : List Node) (j : Nat) (h : ∀ n ∈ body, quietNode n = true) :
+    ∀ x ∈ replicaOf T false body j, quietNode x = true := by
+  intro x hx
+  unfold replicaOf at hx
+  simp only [List.mem_map] at hx
+  obtain ⟨n, hn, rfl⟩ := hx
+  refine quietNode_of _ n ?_ ?_ (h n hn)
+  · simp only []
+    rw [(dropPlaceholder_df _).1, resolveUnknown_desc]
+  · simp only [Bool.or_false]
+    rw [(dropPlaceholder_df _).2, resolveUnknown_flags]
+
+theorem replicas_quiet (T : Tables) (body : List Node) (count : Nat) (h : ∀ n ∈ body, quietNode n = true) :
+    ∀ x ∈ replicas T false body count, quietNode x = true := by
+  intro x hx
+  unfold replicas at hx
+  simp only [List.mem_flatMap] at hx
+  obtain ⟨j, _, hj⟩ := hx
+  exact replicaOf_quiet T body j h x hj
+
+theorem assignDescriptors_quiet (T : Tables) (flags : Nat) (body : List Node) (h : ∀ n ∈ body, quietNode n = true) :
+    ∀ x ∈ assignDescriptors T flags body, quietNode x = true := by
+  intro x hx
+  unfold assignDescriptors at hx
+  simp only [List.mem_map] at hx
+  obtain ⟨n, hn, rfl⟩ := hx
+  split
+  · exact quietNode_of _ n rfl rfl (h n hn)
+  · exact quietNode_of _ n (resolveUnknown_desc T n) (by rw [resolveUnknown_flags]) (h n hn)
+
+theorem memberNodes_quiet (T : Tables) : ∀ (ms : List Nat) (prev : Option Nat) (ns : List Node),
+    (∀ m ∈ ms, quietDesc m = true) → memberNodes T prev ms = some ns → ∀ x ∈ ns, quietNode x = true := by
+  intro ms
+  induction ms with
+  | nil => intro prev ns _ h; simp [memberNodes] at h; subst h; simp
+  | cons c cs ih =>
+    intro prev ns hq h
+    unfold memberNodes at h
+    simp only [] at h
+    split at h
+    · cases hr : memberNodes T (some c) cs with
+      | none => simp [hr] at h
+      | some r =>
+        simp only [hr, Option.map_some, Option.some.injEq] at h
+        subst h
+        intro x hx
+        simp only [List.mem_cons] at hx
+        rcases hx with hx | hx
+        · subst hx
+          unfold quietNode
+          rw [mkNode_desc]
+          have hf : (mkNode T c).flags.class33 = false := by
+            unfold mkNode; split <;> rfl
+          rw [hf]; simp; exact hq c (by simp)
+        · exact ih (some c) r (fun m hm => hq m (by simp [hm])) hr x hx
+    · exact absurd h (by simp)
+
+theorem ite_err_ok {α : Type} (c : Bool) (x : Except XErr α) (v : α)
+    (h : (if c = true then Except.error XErr.null else x) = .ok v) : x = .ok v := by
+  cases c
+  · simpa using h
+  · simp at h
+
+def QuietOK (T : Tables) (f : Nat) : Prop :=
+  (∀ flags s4 ns r e, (∀ n ∈ ns, quietNode n = true) → expandList T f flags s4 ns = .ok (r, e) →
+      ∀ x ∈ r, quietNode x = true) ∧
+  (∀ flags s4 body count r e, (∀ n ∈ body, quietNode n = true) → replDescriptors T f flags s4 body count = .ok (r, e) →
+      ∀ x ∈ r, quietNode x = true) ∧
+  (∀ flags s4 d r e, expandDesc T f flags s4 d = .ok (r, e) → ∀ x ∈ r, quietNode x = true)
+
+theorem mem_take_of {ns : List Node} (h : ∀ n ∈ ns, quietNode n = true) (k : Nat) : ∀ n ∈ ns.take k, quietNode n = true :=
+  fun n hn => h n (List.mem_of_mem_take hn)
+theorem mem_drop_of {ns : List Node} (h : ∀ n ∈ ns, quietNode n = true) (k : Nat) : ∀ n ∈ ns.drop k, quietNode n = true :=
+  fun n hn => h n (List.mem_of_mem_drop hn)
+
+theorem quiet_ok (T : Tables) (hT : QuietTables T) : ∀ f, QuietOK T f := by
+  intro f
+  induction f with
+  | zero =>
+    refine ⟨?_, ?_, ?_⟩
+    · intro fl s4 ns r e _ h; simp [expandList] at h
+    · intro fl s4 b c r e _ h; simp [replDescriptors] at h
+    · intro fl s4 d r e h; simp [expandDesc] at h
+  | succ f ih =>
+    obtain ⟨ihL, ihR, ihD⟩ := ih
+    refine ⟨?_, ?_, ?_⟩
+    · intro flags s4 ns r e hq h
+      cases ns with
+      | nil => simp [expandList] at h; obtain ⟨rfl, _⟩ := h; simp
+      | cons n rest =>
+        have hn : quietNode n = true := hq n (by simp)
+        have hrest : ∀ m ∈ rest, quietNode m = true := fun m hm => hq m (by simp [hm])
+        have hdone : quietNode { n with flags := { n.flags with expanded := true, skipped := true } } = true :=
+          quietNode_of _ n rfl rfl hn
+        have hn' : ∀ c : Bool, quietNode { n with flags := { n.flags with class31 := c } } = true :=
+          fun c => quietNode_of _ n rfl rfl hn
+        have hc31q : ∀ (c31 : Node) (fl : Flags) (v : Val), quietNode c31 = true → fl.class33 = c31.flags.class33 →
+            quietNode { c31 with flags := fl, val := v } = true :=
+          fun c31 fl v hc hf => quietNode_of _ c31 rfl hf hc
+        unfold expandList at h
+        cases rest with
+        | nil =>
+          simp only [List.length_nil, List.take_nil, List.drop_nil] at h
+          repeat' (first | contradiction | split at h)
+          all_goals first
+            | (obtain ⟨⟨r2, e2⟩, hr, h⟩ := except_map_ok _ _ _ h
+               simp only [Prod.mk.injEq] at h
+               obtain ⟨rfl, _⟩ := h
+               have := ihL _ _ _ _ _ (fun m hm => by simp at hm) hr
+               simp only [List.forall_mem_cons]
+               repeat' constructor
+               all_goals first | exact hn | exact hdone | exact hn' _ | exact this)
+            | (obtain ⟨⟨sub, e1⟩, hs, h⟩ := except_bind_ok _ _ _ h
+               obtain ⟨⟨r2, e2⟩, hr, h⟩ := except_bind_ok _ _ _ h
+               simp only [pure, Except.pure, Except.ok.injEq, Prod.mk.injEq] at h
+               obtain ⟨rfl, _⟩ := h
+               have h1 := ihL _ _ _ _ _ (fun m hm => by simp at hm) hr
+               simp only [List.cons_append, List.forall_mem_cons, List.forall_mem_append]
+               repeat' constructor
+               all_goals first | exact hdone | exact h1 | exact ihD _ _ _ _ _ hs
+                               | exact ihR _ _ _ _ _ _ (fun m hm => by simp at hm) hs)
+            | (simp only [Except.ok.injEq, Prod.mk.injEq] at h
+               obtain ⟨rfl, _⟩ := h
+               simp only [List.forall_mem_cons]
+               repeat' constructor
+               all_goals first | exact hdone | (intro x hx; simp at hx))
+        | cons c31 rest' =>
+          have hc31 : quietNode c31 = true := hrest c31 (by simp)
+          have hrest' : ∀ m ∈ rest', quietNode m = true := fun m hm => hrest m (by simp [hm])
+          simp only [] at h
+          repeat' (first | contradiction | split at h)
+          all_goals first
+            | (obtain ⟨⟨r2, e2⟩, hr, h⟩ := except_map_ok _ _ _ h
+               simp only [Prod.mk.injEq] at h
+               obtain ⟨rfl, _⟩ := h
+               have := ihL _ _ _ _ _ hrest hr
+               first
+                 | exact this
+                 | (simp only [List.forall_mem_cons]
+                    repeat' constructor
+                    all_goals first | exact hn | exact hdone | exact hn' _ | exact this))
+            | (obtain ⟨⟨sub, e1⟩, hs, h⟩ := except_bind_ok _ _ _ h
+               obtain ⟨⟨r2, e2⟩, hr, h⟩ := except_bind_ok _ _ _ h
+               simp only [pure, Except.pure, Except.ok.injEq, Prod.mk.injEq] at h
+               obtain ⟨rfl, _⟩ := h
+               simp only [List.cons_append, List.forall_mem_cons, List.forall_mem_append]
+               repeat' constructor
+               all_goals first
+                 | exact hdone
+                 | exact hc31q c31 _ _ hc31 rfl
+                 | exact ihD _ _ _ _ _ hs
+                 | exact ihL _ _ _ _ _ hrest hr
+                 | exact ihR _ _ _ _ _ _ (mem_take_of hrest _) hs
+                 | exact ihL _ _ _ _ _ (mem_drop_of hrest _) hr
+                 | exact ihR _ _ _ _ _ _ (mem_take_of hrest' _) hs
+                 | exact ihL _ _ _ _ _ (mem_drop_of hrest' _) hr)
+            | (obtain ⟨⟨r2, e2⟩, hr, h⟩ := except_bind_ok _ _ _ h
+               simp only [pure, Except.pure, Except.ok.injEq, Prod.mk.injEq] at h
+               obtain ⟨rfl, _⟩ := h
+               simp only [List.cons_append, List.forall_mem_cons, List.forall_mem_append]
+               repeat' constructor
+               all_goals first
+                 | exact hn
+                 | exact hc31q c31 _ _ hc31 rfl
+                 | exact assignDescriptors_quiet T flags _ (mem_take_of hrest' _)
+                 | exact ihL _ _ _ _ _ (mem_drop_of hrest' _) hr)
+    · intro flags s4 body count r e hq h
+      unfold replDescriptors at h
+      rcases body with _ | ⟨b, _ | ⟨b2, tl⟩⟩
+      · simp only [] at h
+        exact ihL _ _ _ _ _ (replicas_quiet T [] count hq) (ite_err_ok _ _ _ h)
+      · have hb : decide (Desc.f b.desc = 0 ∧ Desc.x b.desc = 33) = false := by
+          have := quiet_body_extra [b] hq
+          simpa using this
+        simp only [hb] at h
+        exact ihL _ _ _ _ _ (replicas_quiet T [b] count hq) (ite_err_ok _ _ _ h)
+      · simp only [] at h
+        exact ihL _ _ _ _ _ (replicas_quiet T (b :: b2 :: tl) count hq) (ite_err_ok _ _ _ h)
+    · intro flags s4 d r e h
+      unfold expandDesc at h
+      split at h
+      · exact absurd h (by simp)
+      · cases hfd : T.fetchD d with
+        | none => simp [hfd] at h
+        | some ent =>
+          simp only [hfd] at h
+          split at h
+          · exact absurd h (by simp)
+          · cases hm : memberNodes T none ent.members with
+            | none => simp [hm] at h
+            | some nodes =>
+              simp only [hm] at h
+              exact ihL _ _ _ _ _ (memberNodes_quiet T _ _ _ (hT d ent hfd) hm) h
+
+/-- the closure `decodeSubsetLoopB_quiet` asks for -/
+theorem qclosed_of_quietTables (T : Tables) (hT : QuietTables T) : QClosed T := by
+  intro f s4 n c31 rest lst e hq h
+  have hn : quietNode n = true := hq n (by simp)
+  have hc31 : quietNode c31 = true := hq c31 (by simp)
+  have hrest : ∀ m ∈ rest, quietNode m = true := fun m hm => hq m (by simp [hm])
+  unfold expandNodeDecode at h
+  simp only [] at h
+  repeat' (first | contradiction | split at h)
+  all_goals (
+    simp only [Except.ok.injEq, Prod.mk.injEq] at h
+    obtain ⟨rfl, _⟩ := h
+    simp only [List.cons_append, List.forall_mem_cons, List.forall_mem_append]
+    repeat' constructor
+    all_goals first
+      | exact hn | exact quietNode_of _ n rfl rfl hn | exact hc31 | exact quietNode_of _ c31 rfl rfl hc31
+      | exact hrest | exact mem_drop_of hrest _
+      | exact assignDescriptors_quiet T _ _ (mem_take_of hrest _)
+      | exact (quiet_ok T hT f).2.1 _ _ _ _ _ _ (mem_take_of hrest _) (by assumption))
+
+/-- the expanded template is quiet when the template and the tables are -/
+theorem expandSequence_quiet (T : Tables) (hT : QuietTables T) (fuel flags : Nat) (ns bsq0 : List Node)
+    (hq : ∀ n ∈ ns, quietNode n = true) (h : expandSequence T fuel flags ns = .ok bsq0) :
+    ∀ x ∈ bsq0, quietNode x = true := by
+  unfold expandSequence at h
+  split at h
+  · rename_i r hr
+    simp only [Except.ok.injEq] at h
+    subst h
+    exact (quiet_ok T hT fuel).1 _ _ _ _ _ hq hr
+  · exact absurd h (by simp)
+  · exact absurd h (by simp)
 
 end Bufr
